@@ -312,7 +312,7 @@ def run_val(cx, derived=True):
         for h in ALL_HINTS:
             cases.append("store bool %d %s" % (h, hexs(s)))
         cases.append("validate bool " + hexs(s))
-    lex_of["bool"] = [b"true", b"false"]
+    lex_of["bool"] = [b"true", b"false", b"TRUE", b"True", b"1", b"0", b"", b" true", b"true ", b"truee", b"tru", b"fals", b"false\n", b"yes"]
     for d in ENUM_TYPES:
         lex_of[d] = enum_lexicals(d)
         for s in lex_of[d]:
@@ -511,24 +511,58 @@ def oracle_dec(fd, parts, s):
     return (sign + ip + "." + (frc.rstrip("0") or "0")).encode()
 
 
+def oracle_bits(desc, s):
+    """RFC 7950 9.7.3: space-separated list of distinct bit names; canonical (9.7.2): names in position order"""
+    items = items_of(desc)
+    pos = dict(items)
+    toks = re.split(rb"[ \t\n\r\x0b\x0c]+", s.strip(b" \t\n\r\x0b\x0c")) if s.strip(b" \t\n\r\x0b\x0c") else []
+    if any(t not in pos for t in toks) or len(set(toks)) != len(toks):
+        return None
+    return b" ".join(sorted(toks, key=lambda t: pos[t]))
+
+
+def oracle_str(parts, s):
+    """RFC 7950 9.4: well-formed UTF-8 of legal characters (C0 controls other than TAB/LF/CR and U+FFFE/U+FFFF are not),
+    length counted in characters.  (libyang as a whole also lets the non-characters U+FDD0..FDEF / U+nFFFE,nFFFF through on
+    every route; that deviation from the yang-char ABNF is a C12 matter and is not judged here.)"""
+    try:
+        u = s.decode("utf-8")
+    except UnicodeDecodeError:
+        return None
+    if any((ord(c) < 0x20 and c not in "\t\n\r") or ord(c) in (0xFFFE, 0xFFFF) for c in u):
+        return None
+    return s if in_parts(len(u), parts) else None
+
+
 def laws_accept(run, lex_of):
     cx = run.cx
     for d, lex in lex_of.items():
         head, parts = parse_desc(d)
         isdec = re.match(r"d\d+$", head)
-        if head not in INTS and not isdec:
+        if head in INTS:
+            law, orc = "int_accept_iff", (lambda s: oracle_int(head, parts, s))
+        elif isdec:
+            law, orc = "dec64_accept_iff", (lambda s: oracle_dec(int(head[1:]), parts, s))
+        elif head == "bits":
+            law, orc = "bits_accept_iff", (lambda s: oracle_bits(d, s))
+        elif head == "enum":
+            law, orc = "enum_accept_iff", (lambda s: s if s in dict(items_of(d)) else None)
+        elif head == "bool":
+            law, orc = "bool_accept_iff", (lambda s: s if s in (b"true", b"false") else None)
+        elif head == "str":
+            law, orc = "string_accept_iff", (lambda s: oracle_str(parts, s))
+        else:
             continue
         for s in lex:
             r = run.impl.get("validate %s %s" % (d, hexs(s)))
             if r is None or b"\x00" in s:
                 continue
-            want = oracle_int(head, parts, s) if head in INTS else oracle_dec(int(head[1:]), parts, s)
+            want = orc(s)
             got = unhex(r[1]) if r[0] == "ok" else None
             cx.count(("law-accept", d, s), True, "val:law:accept-iff-rfc")
             if got != want:
                 cx.fail(COMP, "acceptance or canonical value differs from the RFC 7950 value space of the type",
-                        {"type": d, "value_hex": hexs(s), "got": r, "rfc_canonical": hexs(want) if want is not None else None,
-                         "law": "dec64_accept_iff" if isdec else "int_accept_iff"})
+                        {"type": d, "value_hex": hexs(s), "got": r, "rfc_canonical": hexs(want) if want is not None else None, "law": law})
 
 
 # ------------------------------------------------------------------------- (L) same verdict from every source
